@@ -43,6 +43,9 @@ pub struct Backend {
     config: RwLock<Config>,
     stats: RwLock<Stats>,
     doc_state: Mutex<HashMap<Url, DocumentState>>,
+    /// Held while a dictionary file is read, extended and written back, so that add-word commands
+    /// handled concurrently do not overwrite each other's words.
+    dict_write_lock: Mutex<()>,
 }
 
 impl Backend {
@@ -52,6 +55,7 @@ impl Backend {
             stats: RwLock::new(Stats::new()),
             config: RwLock::new(config),
             doc_state: Mutex::new(HashMap::new()),
+            dict_write_lock: Mutex::new(()),
         }
     }
 
@@ -580,12 +584,16 @@ impl LanguageServer for Backend {
 
                 let file_url = second.parse().unwrap();
 
-                let mut dict = self.load_user_dictionary().await;
-                dict.append_word(word, WordMetadata::default());
-                self.save_user_dictionary(dict)
-                    .await
-                    .map_err(|err| error!("{err}"))
-                    .err();
+                {
+                    // Load, extend and save as one step: another add-word command may be running.
+                    let _guard = self.dict_write_lock.lock().await;
+                    let mut dict = self.load_user_dictionary().await;
+                    dict.append_word(word, WordMetadata::default());
+                    self.save_user_dictionary(dict)
+                        .await
+                        .map_err(|err| error!("{err}"))
+                        .err();
+                }
                 self.update_document_from_file(&file_url, None)
                     .await
                     .map_err(|err| error!("{err}"))
@@ -601,22 +609,26 @@ impl LanguageServer for Backend {
 
                 let file_url = second.parse().unwrap();
 
-                let mut dict = match self
-                    .load_file_dictionary(&file_url)
-                    .await
-                    .map_err(|err| error!("{err}"))
                 {
-                    Ok(dict) => dict,
-                    Err(_) => {
-                        return Ok(None);
-                    }
-                };
-                dict.append_word(word, WordMetadata::default());
+                    // Load, extend and save as one step: another add-word command may be running.
+                    let _guard = self.dict_write_lock.lock().await;
+                    let mut dict = match self
+                        .load_file_dictionary(&file_url)
+                        .await
+                        .map_err(|err| error!("{err}"))
+                    {
+                        Ok(dict) => dict,
+                        Err(_) => {
+                            return Ok(None);
+                        }
+                    };
+                    dict.append_word(word, WordMetadata::default());
 
-                self.save_file_dictionary(&file_url, dict)
-                    .await
-                    .map_err(|err| error!("{err}"))
-                    .err();
+                    self.save_file_dictionary(&file_url, dict)
+                        .await
+                        .map_err(|err| error!("{err}"))
+                        .err();
+                }
                 self.update_document_from_file(&file_url, None)
                     .await
                     .map_err(|err| error!("{err}"))
